@@ -468,7 +468,21 @@ func ruleSlotFunction(w *core.World, r *core.Report, f *ssa.Function) string {
 			}
 			return name + ":" + sum
 		}
-		r.Undecided(cons, f.Pos(), "the function does not locate the tag by a first-match scan for '{' from index 0 followed by a first-match scan for '}' from the next index (recognised idioms: for i = start; i < len(key); i++ { if key[i] == c { break } }, or s := strings.IndexByte(key, '{') / e := strings.IndexByte(key[s+1:], '}')); a scan that continues after the first '{' or searches from the end disagrees with HASH_SLOT for keys with several braces")
+		// the two scans are calls of one search helper (r7_n2.go)
+		if sum, done := slotFunctionScanHelperIdiom(r, f, key, cons, func(ret *ssa.Return) ssa.Value {
+			for _, ri := range rets {
+				if ri.ret == ret {
+					return ri.arg
+				}
+			}
+			return nil
+		}); done {
+			if sum == "first{first}nonempty&16383" {
+				return sum
+			}
+			return name + ":" + sum
+		}
+		r.Undecided(cons, f.Pos(), "the function does not locate the tag by a first-match scan for '{' from index 0 followed by a first-match scan for '}' from the next index (recognised idioms: for i = start; i < len(key); i++ { if key[i] == c { break } }, or s := strings.IndexByte(key, '{') / e := strings.IndexByte(key[s+1:], '}'), or s := h(key, 0, '{') / e := h(key, s+1, '}') with h(s, from, c) a helper that is exactly such a first-match loop and returns its index); a scan that continues after the first '{' or searches from the end disagrees with HASH_SLOT for keys with several braces")
 		return name + ":unrecognised"
 	}
 	isS := func(v ssa.Value) bool { return v == ssa.Value(sPhi) }
